@@ -222,6 +222,136 @@ def top_contract(cfg):
     return c
 
 
+# ---- native randomized streams on the real FIFO + faithful memory (bounded) -------------------------------------------------
+
+def _native_stream(seed, n=36, dw=8, pdw=16, pre=4, post=4, depth_bytes=16, p_in=0.7, p_out=0.5, p_mem=0.5, with_bypass=True):
+    """real LiteDRAMFIFO on a faithful two-port memory (NativePortSpec: per-port order, a read accepted after a write
+    command of the same address waits for that write's data), random producer / consumer / memory stalls"""
+    import random
+    from migen.sim import run_simulation
+    rnd = random.Random(seed)
+    wp, rp = LiteDRAMNativePort("write", 10, pdw), LiteDRAMNativePort("read", 10, pdw)
+    class H(Module):
+        def __init__(self):
+            self.submodules.fifo = LiteDRAMFIFO(dw, 0, depth_bytes, wp, rp, with_bypass=with_bypass, pre_fifo_depth=pre, post_fifo_depth=post)
+    h = H(); fifo = h.fifo
+    mem = {}
+    wpend = []          # (seq, addr) write commands accepted, data not yet taken
+    seq = [0]
+    sent, got = [], []
+    def producer():
+        i = 0
+        while i < n:
+            if rnd.random() < p_in:
+                v = rnd.getrandbits(dw) | 1
+                yield fifo.sink.valid.eq(1); yield fifo.sink.data.eq(v)
+                yield
+                while not (yield fifo.sink.ready):
+                    yield
+                sent.append(v); i += 1
+                yield fifo.sink.valid.eq(0)
+            else:
+                yield
+    def consumer():
+        idle = 0
+        # stall phases
+        while idle < 120:
+            rdy = 1 if rnd.random() < p_out else 0
+            yield fifo.source.ready.eq(rdy)
+            yield
+            if rdy and (yield fifo.source.valid):
+                got.append((yield fifo.source.data)); idle = 0
+            else:
+                idle += 1
+    def wmem():
+        pend = []
+        while True:
+            cr = 1 if rnd.random() < p_mem else 0
+            dr = 1 if (pend and rnd.random() < p_mem) else 0
+            yield wp.cmd.ready.eq(cr); yield wp.wdata.ready.eq(dr)
+            yield
+            if cr and (yield wp.cmd.valid):
+                a_ = (yield wp.cmd.addr)
+                pend.append(a_); seq[0] += 1; wpend.append((seq[0], a_))
+            if dr and (yield wp.wdata.valid):
+                a = pend.pop(0); mem[a] = (yield wp.wdata.data); wpend.pop(0)
+    def rmem():
+        pend = []
+        while True:
+            cr = 1 if rnd.random() < p_mem else 0
+            yield rp.cmd.ready.eq(cr)
+            ret = pend and rnd.random() < p_mem and not any(sq < pend[0][0] and a2 == pend[0][1] for sq, a2 in wpend)
+            if ret:
+                a = pend.pop(0)[1]
+                yield rp.rdata.valid.eq(1); yield rp.rdata.data.eq(mem.get(a, 0))
+            else:
+                yield rp.rdata.valid.eq(0)
+            yield
+            if cr and (yield rp.cmd.valid):
+                seq[0] += 1
+                pend.append((seq[0], (yield rp.cmd.addr)))
+    gens = [producer(), consumer()]
+    import itertools
+    def bounded(g, cycles=1500):
+        n = 0
+        val = None
+        while True:
+            try:
+                x = g.send(val) if val is not None or n else next(g)
+            except StopIteration:
+                return
+            if x is None:
+                n += 1
+                if n > cycles:
+                    return
+            val = yield x
+    def wm():
+        yield from bounded(wmem())
+    def rm():
+        yield from bounded(rmem())
+    try:
+        run_simulation(h, [bounded(producer(), 1500), bounded(consumer(), 1500), wm(), rm()])
+    except Exception as e:
+        return sent, got, repr(e)
+    return sent, got, None
+
+
+
+NATIVE_SCENARIOS = [dict(dw=16, with_bypass=False, seeds=[0, 1]), dict(dw=16, with_bypass=True, seeds=[0, 1, 2]),
+                    dict(dw=8, with_bypass=True, seeds=[0, 1, 2, 3])]
+
+
+def native_streams_task(cfg, tier):
+    import json, time
+    from vc.runner import replay_path
+    res = []
+    for seed in cfg["seeds"]:
+        t0 = time.time()
+        sent, got, exc = _native_stream(seed, dw=cfg["dw"], with_bypass=cfg["with_bypass"])
+        ok = exc is None and got == sent
+        k = next((i for i in range(min(len(sent), len(got))) if sent[i] != got[i]), min(len(sent), len(got)))
+        oid = "C13/LiteDRAMFIFO.native[data_width=%d,port=16,with_bypass=%s,seed=%d]/bounded/output_stream_equals_input_stream" % (
+            cfg["dw"], cfg["with_bypass"], seed)
+        r = {"id": oid, "kind": "bounded", "status": "bounded-ok" if ok else "failed", "seconds": round(time.time() - t0, 2),
+             "backend": "native-simulation(migen)", "depth": len(sent)}
+        if not ok:
+            path = replay_path("C13", oid)
+            json.dump({"property": "C13", "obligation": oid, "module": "contracts.c13", "kind": "pyargs",
+                       "args": dict(seed=seed, dw=cfg["dw"], with_bypass=cfg["with_bypass"])}, open(path, "w"), indent=1)
+            r.update(replay=path, reproduced=True, witness=dict(first_difference_at=k, sent=sent[max(0, k - 2):k + 4], received=got[max(0, k - 2):k + 4],
+                                                                words_sent=len(sent), words_received=len(got), exception=exc))
+        res.append(r)
+    return {"results": res}
+
+
+def replay(rp):
+    a = rp["args"]
+    sent, got, exc = _native_stream(a["seed"], dw=a["dw"], with_bypass=a["with_bypass"])
+    bad = exc is not None or got != sent
+    print("replay %s: %s (sent %d words, received %d)" % (rp["obligation"], "VIOLATED on current tree" if bad else "not violated on current tree", len(sent), len(got)))
+    return 1 if bad else 0
+
+
 def tasks(tier):
     out = []
     pcs = [dict(depth=2), dict(depth=3, base=7), dict(depth=8, base=0), dict(depth=5, base=1000)]
@@ -242,4 +372,7 @@ def tasks(tier):
     for cfg, d in tops:
         out.append(dict(fn="top_contract", cfg=dict(cfg, depth=d), modes=["bounded", "cover", "difftest"], depth=d, weight=30,
                         timeout_ms=3000000, oneshot=True, difftest_cycles=60))
+    for sc in NATIVE_SCENARIOS:
+        for seed in sc["seeds"]:
+            out.append(dict(kind="custom", fn="native_streams_task", cfg=dict(sc, seeds=[seed]), weight=15))
     return out
